@@ -121,13 +121,111 @@ def rule_owned_storage(prog: Program, rep: Report, rule: str, c: Cls, storage: I
         rep.unrec(rule, prog.resolve(c, "__init__") or own_methods(c)[0], f"owned:{c.name}", "no store into the storage fields found")
 
 
+def _must_assign(prog: Program, c: Cls, f: Func, seen=()) -> Set[str]:
+    """fields of self that are assigned on EVERY path through ``f`` that ends normally (structural must-analysis: an `if` gives the
+    intersection of its arms, a loop body may not run, a path that raises does not count)"""
+    me = f.self_name
+    ALL = None                                     # "this block never falls through"
+
+    def meet(a, b):
+        if a is ALL:
+            return b
+        if b is ALL:
+            return a
+        return a & b
+
+    def expr_assigns(e) -> Set[str]:
+        out = set()
+        for n in ast.walk(e):
+            if isinstance(n, ast.Call) and isinstance(n.func, ast.Attribute) and n.func.attr == "__init__" and f.name == "__init__":
+                # super().__init__(...) / Base.__init__(self, ...)
+                base = n.func.value
+                target = None
+                if isinstance(base, ast.Call) and src(base.func) == "super":
+                    for k in c.repo_mro():
+                        if k is not f.cls and not k.is_external and k not in seen and "__init__" in k.methods \
+                                and f.cls in c.repo_mro() and c.repo_mro().index(k) > c.repo_mro().index(f.cls):
+                            target = k
+                            break
+                elif isinstance(base, ast.Name):
+                    target = next((k for k in c.repo_mro() if k.name == base.id and not k.is_external and "__init__" in k.methods), None)
+                if target is not None:
+                    out |= _must_assign(prog, c, target.methods["__init__"], tuple(seen) + (f.cls,)) or set()
+        return out
+
+    def block(stmts) -> Optional[Set[str]]:
+        got: Set[str] = set()
+        for st in stmts:
+            if isinstance(st, (ast.Return, ast.Raise)):
+                if isinstance(st, ast.Raise):
+                    return ALL
+                return ("RET", got)                          # the caller records the path
+            if isinstance(st, (ast.Assign, ast.AnnAssign, ast.AugAssign)):
+                tg = st.targets if isinstance(st, ast.Assign) else [st.target]
+                if getattr(st, "value", None) is not None:
+                    got |= expr_assigns(st.value)
+                    for t in tg:
+                        for x in ([t] if not isinstance(t, (ast.Tuple, ast.List)) else t.elts):
+                            if isinstance(x, ast.Attribute) and isinstance(x.value, ast.Name) and x.value.id == me:
+                                got.add(x.attr)
+            elif isinstance(st, ast.Expr):
+                got |= expr_assigns(st.value)
+            elif isinstance(st, ast.If):
+                a, b = block(st.body), block(st.orelse)
+                if isinstance(a, tuple):
+                    rets.append(got | a[1]); a = ALL
+                if isinstance(b, tuple):
+                    rets.append(got | b[1]); b = ALL
+                m = meet(a, b)
+                if m is ALL:
+                    return ALL
+                got |= m
+            elif isinstance(st, (ast.For, ast.While, ast.AsyncFor)):
+                for sub in (st.body, st.orelse):
+                    r = block(sub)
+                    if isinstance(r, tuple):
+                        rets.append(set(got))          # a return inside a loop: only what was assigned before the loop counts
+            elif isinstance(st, (ast.With, ast.AsyncWith)):
+                r = block(st.body)
+                if isinstance(r, tuple):
+                    return ("RET", got | r[1])
+                if r is ALL:
+                    return ALL
+                got |= r
+            elif isinstance(st, ast.Try):
+                r = block(st.finalbody)
+                if isinstance(r, tuple):
+                    return ("RET", got | r[1])
+                if r is not ALL:
+                    got |= r
+                for sub in [st.body, st.orelse] + [h.body for h in st.handlers]:
+                    q = block(sub)
+                    if isinstance(q, tuple):
+                        rets.append(set(got))
+        return got
+
+    rets: List[Set[str]] = []
+    r = block(f.node.body)
+    if isinstance(r, tuple):
+        rets.append(r[1])
+    elif r is not ALL:
+        rets.append(r)
+    if not rets:
+        return set()
+    out = rets[0]
+    for x in rets[1:]:
+        out = out & x
+    return out
+
+
 def rule_no_class_state(prog: Program, rep: Report, rule: str, classes: List[Cls], declare: bool = True, floor: Optional[int] = None):
     """per-instance state lives on the instance"""
     if declare:
         rep.rule(rule, "state lives on the instance, not on the class: no method stores into an attribute of the class (Class.x = / "
-                 "cls.x = / type(self).x = / self.__class__.x =), and no class-level attribute holding a mutable container is updated in "
-                 "place through self or read through self without the constructor having assigned it: two objects in one process "
-                 "would share it", floor=floor if floor is not None else len(classes))
+                 "cls.x = / type(self).x = / self.__class__.x =), no class-level attribute holding a mutable container is updated in "
+                 "place through self or read through self without the constructor having assigned it on every path, and no parameter "
+                 "whose default is a mutable display or a constructed object (a queue, a lock, a list) is stored into a field: two "
+                 "objects in one process would share it", floor=floor if floor is not None else len(classes))
     for c in classes:
         class_level = {}
         for k in c.repo_mro():
@@ -142,7 +240,8 @@ def rule_no_class_state(prog: Program, rep: Report, rule: str, classes: List[Cls
                 if tgt and not (tgt.startswith("__") and tgt.endswith("__")):
                     class_level.setdefault(tgt, (k, st, val))
         stores, inplace, loads = field_uses(c)
-        init_assigned = {fld for fld, uses in stores.items() if any(f.name == "__init__" for f, _ in uses)}
+        init = prog.resolve(c, "__init__")
+        init_assigned = _must_assign(prog, c, init) if init is not None and not getattr(init.cls, "is_external", False) else set()
         problems = []
         for name, (k, st, val) in sorted(class_level.items()):
             mutable = isinstance(val, (ast.List, ast.Dict, ast.Set, ast.ListComp, ast.DictComp, ast.SetComp)) or \
@@ -151,7 +250,43 @@ def rule_no_class_state(prog: Program, rep: Report, rule: str, classes: List[Cls
             if mutable and name in inplace and name not in init_assigned:
                 f0, n0 = inplace[name][0]
                 problems.append((n0.lineno, f"the class attribute `{name} = {src(val)}` of {k.name} is updated in place through self in "
-                                            f"{f0.name} and the constructor never gives the instance its own container"))
+                                            f"{f0.name} and the constructor does not give the instance its own container on every path"))
+        # a default argument value is created once, when the function is defined: stored into a field it is shared by every
+        # instance constructed with the default
+        STATEFUL_MAKERS = {"Queue", "SimpleQueue", "JoinableQueue", "LifoQueue", "PriorityQueue", "Lock", "RLock", "Event", "Condition",
+                           "Semaphore", "BoundedSemaphore", "Barrier", "deque", "defaultdict", "OrderedDict", "Counter", "list", "dict",
+                           "set", "bytearray", "StringIO", "BytesIO", "Manager", "Value", "Array", "Pipe", "array"}
+        for f in own_methods(c):
+            a = f.node.args
+            pos = a.posonlyargs + a.args
+            pairs = list(zip(pos[len(pos) - len(a.defaults):], a.defaults)) + [(x, d) for x, d in zip(a.kwonlyargs, a.kw_defaults) if d is not None]
+            for arg, dflt in pairs:
+                display = isinstance(dflt, (ast.List, ast.Dict, ast.Set, ast.ListComp, ast.DictComp, ast.SetComp))
+                made = False
+                if isinstance(dflt, ast.Call):
+                    nm = src(dflt.func)
+                    tail = nm.split(".")[-1]
+                    k2 = next((k for k in prog.classes.values() if not k.is_external and k.name == tail), None)
+                    if k2 is not None:
+                        # an object of a repository class: shared state only if the class has instance fields at all
+                        st2, inp2, _ = field_uses(k2)
+                        made = bool(st2 or inp2)
+                    else:
+                        made = tail in STATEFUL_MAKERS
+                if not (display or made):
+                    continue
+                fl = None
+                for t, v, st in iter_stores(f.node):
+                    d = dotted(t)
+                    if d and len(d) == 2 and d[0] == f.self_name and isinstance(v, ast.Name) and v.id == arg.arg:
+                        fl = fl or Flow(f.node)
+                        if not fl.origin_is_param(v, arg.arg):
+                            continue
+                        if display and d[1] not in inplace:
+                            continue          # a display that is only ever read through the field is harmless
+                        problems.append((st.lineno, f"{f.name} stores its parameter `{arg.arg}` in self.{d[1]}, and the default value "
+                                                    f"`{src(dflt)}` is one object created when the function was defined: every "
+                                                    f"{c.name} built with the default shares it"))
         for f in own_methods(c):
             for n in ast.walk(f.node):
                 if isinstance(n, ast.Attribute) and isinstance(n.ctx, (ast.Store, ast.Del)):
